@@ -19,7 +19,7 @@ MANIFEST = {
             "point (solver, helpers, ideal and non-ideal curves, four process models, metrics, measurement extraction) executed with mass- and "
             "mole-fraction inputs are validated by TLC output by output.",
     "note": "Scenarios sampled. Trusted: TLC, Java overrides, recorder.",
-    "technique": "TLA+ spec (Composition/Twin) + TLC + TLC validation of recorded basis twins",
+    "technique": "TLA+ spec (Composition/Twin/Extract) + TLC + TLC validation of recorded basis twins",
 }
 KINDS = ["ideal_iso", "ideal_noniso", "nonideal_iso", "nonideal_noniso"]
 
@@ -27,7 +27,14 @@ KINDS = ["ideal_iso", "ideal_noniso", "nonideal_iso", "nonideal_noniso"]
 def leg_a(ctx):
     return [{"spec": "MC_Composition.tla", "cfg": "MC_Composition.cfg", "coverage": True, "workers": 4,
              "what": "conversion machine, exact rationals (round trip, ratio law)"},
-            {"spec": "MC_Composition.tla", "cfg": "MC_Composition_neg_swap_m.cfg", "expect": "violates:Inv_RatioLaw,StepIsConvRel"}]
+            {"spec": "MC_Composition.tla", "cfg": "MC_Composition_neg_swap_m.cfg", "expect": "violates:Inv_RatioLaw,StepIsConvRel"},
+            {"spec": "MC_ExtractQ.tla", "cfg": "MC_ExtractQ.cfg", "workers": 4,
+             "what": "measurement extraction (Extract.tla) on every set of <= 2 curves x <= 2 points, exact rationals: complete, in order, "
+                     "the same from a mass- and from a mole-fraction statement of the set"},
+            {"spec": "MC_ExtractQ.tla", "cfg": "MC_ExtractQ_neg_sorted.cfg", "expect": "violates:Inv_OrderKept", "workers": 2},
+            {"spec": "MC_ExtractQ.tla", "cfg": "MC_ExtractQ_neg_dedupe.cfg", "expect": "violates:Inv_Complete,Inv_OrderKept", "workers": 2},
+            {"spec": "MC_ExtractQ.tla", "cfg": "MC_ExtractQ_neg_drop_zero.cfg", "expect": "violates:Inv_Complete,Inv_OrderKept", "workers": 2},
+            {"spec": "MC_ExtractQ.tla", "cfg": "MC_ExtractQ_neg_raw_x.cfg", "expect": "violates:Inv_BasisFree", "workers": 2}]
 
 
 def run(ctx, pool):
